@@ -142,7 +142,9 @@ pub fn check(case: &Case, st: &mut Stats) -> CheckResult {
       let bound = env.get_multiple_matches(&r.name);
       let named: Vec<(usize, usize)> = bound
         .iter()
-        .filter(|b| b.is_named())
+        // zero-width named siblings (an empty heredoc body, an empty raw-string content) carry no
+        // text: whether one at the edge of the run belongs to it is not observable in the code
+        .filter(|b| b.is_named() && b.range().end > b.range().start)
         .map(|b| (b.range().start, b.range().end))
         .collect();
       if named != r.named {
